@@ -308,7 +308,8 @@ EXTRA_TEXT = {
  'C01': ' Route A table obligation `registry_perpoint_keys_shaped` over Gen/Registry (closure cells of the wrapper and one probe call per method, regenerated on every run): no public method hands back a flat per-point array and every 2-D reshape key is also un-sorted.',
  'C02': ' Route A table obligation `registry_perpoint_keys_sorted` over Gen/Registry (regenerated on every run from the imported package): every method that lets the wrapper sort declares every per-point output for un-sorting, so it inherits the equivariance theorem; when the obligation breaks the flagged methods are driven first, on larger data and with every single-parameter variant. The conditioning excuse is granted per output (an output is excused only if its own difference is within 1000x its own movement under the perturbation).',
  'C05': ' Further theorems: `_numba_banded_dot_banded` (all band counts and N, with the caller lemmas for `_banded_dot_banded` and the three calls of beads), `_quadratic_bezier` / `_quadratic_bezier_spline` (arbitrary argmin outcomes), `_interp_inplace` (through `_fill_skips` and `_find_peak_segments`), `_loess_solver` and the loop indices of the three loess kernels, and caller lemmas deriving each precondition from the guards of loess, the spline set-up, peak_filling, corner_cutting and the rolling-std padding; exact access traces of the kernels\' Python source against the models and precondition monitors on every kernel call made by the public methods.',
- 'C06': ' The 2-D returned-pair certificates run with the data and the weights in every memory layout (C / Fortran order, transposed and strided views), independently.',
+ 'C06': ' Further theorems: `kron_penalty_vec`, `doc2d_is_kron_sum`, `asm2d_den`, `doc2d_apply_vec` (the 2-D documented system is diag(w) + the Kronecker sum and acts on the row-major vec as row / column operators), `jbcd_asm_den` (+ `jbcd_signal_ne_documented`: the coded signal system differs from the documented one by the factor 2 on gamma — observation), `converged_pair_solves`, `exhausted_returns_fresh_state`, `stateful_refines_skeleton`, `brpls_pair_solves`, `jbcd_pair_solves`; captured 2-D sparse systems and jbcd band systems against the Lean assembly, loop models fed with the decisions of real runs. The 2-D returned-pair certificates run with the data and the weights in every memory layout (C / Fortran order, transposed and strided views), independently.',
+ 'C07': ' Further theorems: `pspline_iasls_extra` (+ `_full`, `_rhs`), `pspline_drpls_asm_den`, `pspline_aspls_asm_den` (+ `_midpoints`), `pspline_drpls_aspls_rhs`, `lowerToFull_den`, `addDiagonalsFull_den`, `shiftRows_reverse_colscale_any`; the systems captured at `PenalizedSystem.solve` for pspline_iasls / drpls / aspls are compared with the Lean assembly over solvers 1-4.',
  'C10': ' Every 1-D method is also run on data with a 1e6 offset and little noise and on data scaled by 1e-6 / 1e6 in all configurations (a fall-back must be as accurate as the accelerated path, not only algebraically equal).',
  'C11': ' In the reconfiguration histories the real systems are USED in place between reconfigurations (add_diagonal + solve with and without overwrite_ab; solve_pspline), as the methods use them.',
  'C13': ' method_kwargs dictionaries are also given keys that shadow the optimizer\'s own arguments or that it treats specially (weights, alpha, tol, lam, max_iter, x_data), with the explicit argument omitted.',
